@@ -176,7 +176,12 @@ signal_impl::sweep()
   while (i != slots_.end())
   {
     if ((*i).empty())
+    {
+      // A slot that was empty when it was connected has never been disconnected.
+      // Disconnect it now, so that its self_and_iter struct is deleted.
+      (*i).disconnect();
       i = slots_.erase(i);
+    }
     else
       ++i;
   }
